@@ -573,6 +573,19 @@ def directed_schedules():
                         ('call', 'u1', 'add', 'F', 0), ('reply', 'u1', ok, 'Q')))
             out.append((('call', 'u1', 'add', 'R', 'Q'), ('reply', 'u1', False, 'Q'),
                         ('call', 'u1', 'rem', 'R', ('T', 'u1', k)), ('call', 'u1', 'add', 'R', 0), ('reply', 'u1', ok, 'Q')))
+    # every mix of 2 and 3 consecutive failing attempts (s = no answer, n = unknown user), then: the server
+    # confirms in the final phase / confirms explicitly / the reason goes away / the next write fails
+    import itertools
+    for n in (2, 3):
+        for mix in itertools.product('sn', repeat=n):
+            base = [('call', 'u1', 'add', 'R', 'Q')]
+            for kind in mix:
+                base += ([('wait', 10)] if kind == 's' else [('reply', 'u1', False, 'Q')]) + [('waitretry', 'u1')]
+            out.append(tuple(base))
+            out.append(tuple(base) + (('reply', 'u1', True, 'Q'),))
+            out.append(tuple(base) + (('call', 'u1', 'rem', 'R', 'Q'),))
+            out.append((('failframe', n + 1),) + tuple(base))
+            out.append((('call', 'u2', 'add', 'F', 'Q'), ('reply', 'u2', True, 'Q')) + tuple(base))
     for n in (1, 2, 3):
         out.append((('failframe', n), ('call', 'u1', 'add', 'R', 'Q'), ('call', 'u2', 'add', 'F', 'Q'),
                     ('reply', 'u1', True, 'Q'), ('call', 'u1', 'rem', 'R', 'Q'), ('call', 'u2', 'rem', 'F', 'Q')))
@@ -600,6 +613,8 @@ def _classify(info, trace):
         return 'AddUser:neither-rise-nor-due-retry'
     if name.startswith('RemoveOnlyOnFall'):
         return 'RemoveUser:not-a-fall'
+    if name == 'RetryHappens':
+        return 'retry:no-further-attempt-after-failed-attempt'
     if name == 'RetryAfterDocumentedDelay':
         return 'retry:not-after-documented-delay'
     if name in ('NoLostCall', 'ServerMirrorsWant') and ev.get('ev') == 'q':
@@ -774,6 +789,8 @@ def run(chk: Check, args):
     chk.assumptions += [
         'retry delays 10 s (send error / no answer) and 600 s (unknown user) are pinned from '
         'user/manager.py RETRY_TIMEOUT_* (USAGE.rst does not state them)',
+        'RetryHappens (bounded time): an unanswered AddUser counts as failed after at most 60 s (the code waits 10 s; '
+        'the wait itself is not documented), slack 1 s',
         'server behaviours per attempt: confirm exists / not-exists promptly, silence, failing write, disconnect; '
         'late or unsolicited AddUser responses are not part of the quantifier',
         'no track/untrack calls are issued once the connection is being closed (the reference is reset by the close)',
@@ -820,17 +837,43 @@ def _corruptions(tr):
             break
 
 
+def _corrupt_retries_stop(tr):
+    """from the first retry on nothing more happens for that user: its frames, answers and events are
+    removed and it stays in retry_pending - what a lost retry timer looks like"""
+    if any(e['ev'] in ('close', 'closed') for e in tr):
+        return None
+    for i, e in enumerate(tr):
+        if e['ev'] != 'frame' or e['k'] != 'add':
+            continue
+        prev = [x for x in tr[:i] if x.get('u') == e['u'] and x['ev'] in ('evt', 'frame', 'call', 'reply')]
+        if not (prev and prev[-1]['ev'] == 'evt' and prev[-1]['st'] == 'retry_pending'):
+            continue
+        u = e['u']
+        if any(x['ev'] == 'call' and x['u'] == u for x in tr[i:]):
+            return None
+        bad = []
+        for j, x in enumerate(copy.deepcopy(tr)):
+            if j >= i and x.get('u') == u and x['ev'] in ('frame', 'reply', 'evt'):
+                continue
+            if j >= i and x['ev'] == 'q':
+                x['st'][u] = 'retry_pending'
+            bad.append(x)
+        return bad
+    return None
+
+
 def _binding_selftest(chk, traces, v):
     cor, names = [], []
     per = {}
     for tid in sorted(v.accepted):
-        for name, bad in _corruptions(traces[tid - 1]):
+        extra = _corrupt_retries_stop(traces[tid - 1])
+        for name, bad in list(_corruptions(traces[tid - 1])) + ([('retries-stop', extra)] if extra else []):
             if per.get(name, 0) >= 4:
                 continue
             per[name] = per.get(name, 0) + 1
             cor.append(bad)
             names.append(name)
-        if len(per) >= 6 and all(n >= 4 for n in per.values()):
+        if len(per) >= 7 and all(n >= 4 for n in per.values()):
             break
     if not cor:
         chk.cov['binding_selftest']['corrupted_traces_rejected'] = 'no accepted trace to corrupt'
